@@ -713,28 +713,6 @@ fn case_json(e: &Expression, verdict: &Value) -> Value {
     out
 }
 
-/// the class of a disagreement that is recorded in known_findings.txt (`1 == a - b` rewritten to `a != b`)
-fn is_known_one_class(e: &Expression) -> bool {
-    // some node `c ==/!= a - b` of the tree reaches the comparison pass with c == 1: the node's children are rewritten with
-    // the real rewriter first, because that is the shape the pass sees
-    fn walk(e: &Expression) -> bool {
-        match e {
-            Expression::BinOp { op, lhs, rhs } => {
-                let hit = matches!(op, BinOpType::IntEqual | BinOpType::IntNotEqual)
-                    && match (rewrite(lhs), rewrite(rhs)) {
-                        (Ok(Expression::Const(c)), Ok(Expression::BinOp { op: BinOpType::IntSub, .. }))
-                        | (Ok(Expression::BinOp { op: BinOpType::IntSub, .. }), Ok(Expression::Const(c))) => c.is_one(),
-                        _ => false,
-                    };
-                hit || walk(lhs) || walk(rhs)
-            }
-            Expression::UnOp { arg, .. } | Expression::Cast { arg, .. } | Expression::Subpiece { arg, .. } => walk(arg),
-            _ => false,
-        }
-    }
-    walk(e)
-}
-
 fn fixed_cases() -> Vec<(Expression, Env)> {
     use BinOpType::*;
     let mut out = Vec::new();
@@ -744,7 +722,7 @@ fn fixed_cases() -> Vec<(Expression, Env)> {
         e.insert(("y".to_string(), 1), y);
         e
     };
-    // the recorded suspect D4: `1 == x - y` -> `x != y`
+    // regression: D4 (fixed by /repo commit e127fe6): `1 == x - y` was rewritten to `x != y`
     out.push((bin(IntEqual, cst(1, 1), bin(IntSub, var("x", 1), var("y", 1))), env(3, 1)));
     out.push((bin(IntNotEqual, bin(IntSub, var("x", 1), var("y", 1)), cst(1, 1)), env(3, 1)));
     out.push((bin(IntEqual, cst(1, 0), bin(IntSub, var("x", 1), var("y", 1))), env(3, 1)));
@@ -851,15 +829,13 @@ struct Tally {
     cases: u64,
     changed: u64,
     bad: u64,
-    known: u64,
     first: Option<Value>,
-    first_known: Option<Value>,
     first_nonbool: Option<Value>,
 }
 
 impl Tally {
     /// true: a (new) disagreement was recorded
-    fn handle(&mut self, e: &Expression, v: Verdict, skip_known: bool) -> bool {
+    fn handle(&mut self, e: &Expression, v: Verdict) -> bool {
         self.cases += 1;
         if v.changed {
             self.changed += 1;
@@ -870,13 +846,6 @@ impl Tally {
             }
         }
         if let Some(b) = v.bad {
-            if skip_known && is_known_one_class(e) {
-                self.known += 1;
-                if self.first_known.is_none() {
-                    self.first_known = Some(case_json(e, &b));
-                }
-                return false;
-            }
             self.bad += 1;
             if let Ok(path) = std::env::var("VERIF_C10_DUMP") {
                 use std::io::Write;
@@ -897,12 +866,12 @@ impl Tally {
     }
 }
 
-fn run(seed: u64, rounds: u64, stop_at_first: bool, skip_known: bool) -> Tally {
+fn run(seed: u64, rounds: u64, stop_at_first: bool) -> Tally {
     let mut rng = Rng(seed.wrapping_mul(0x51ED_2701).wrapping_add(10));
-    let mut t = Tally { cases: 0, changed: 0, bad: 0, known: 0, first: None, first_known: None, first_nonbool: None };
+    let mut t = Tally { cases: 0, changed: 0, bad: 0, first: None, first_nonbool: None };
     for (e, env) in fixed_cases() {
         let v = check(&e, &[env]);
-        if t.handle(&e, v, skip_known) && stop_at_first {
+        if t.handle(&e, v) && stop_at_first {
             return t;
         }
     }
@@ -922,27 +891,15 @@ fn run(seed: u64, rounds: u64, stop_at_first: bool, skip_known: bool) -> Tally {
         collect_vars(&e, &mut vars);
         let es = envs(&mut rng, &vars, 24);
         let v = check(&e, &es);
-        if t.handle(&e, v, skip_known) && stop_at_first {
+        if t.handle(&e, v) && stop_at_first {
             return t;
         }
     }
     t
 }
 
-pub fn search(_twin: &str, case: Option<&str>, seed: u64) -> Option<Value> {
-    // `--case all`: do not set the recorded class aside
-    let skip_known = case != Some("all");
-    let t = run(seed, ROUNDS, true, skip_known);
-    let known = t.known;
-    match (t.first, t.first_known) {
-        (Some(v), _) => Some(v),
-        (None, Some(mut k)) if known > 0 => {
-            k["known_only"] = json!(true);
-            k["known_class"] = json!("1 ==/!= a - b rewritten to a !=/== b");
-            Some(k)
-        }
-        _ => None,
-    }
+pub fn search(_twin: &str, _case: Option<&str>, seed: u64) -> Option<Value> {
+    run(seed, ROUNDS, true).first
 }
 
 pub fn replay(_twin: &str, input: &Value) -> Value {
@@ -972,8 +929,6 @@ pub fn replay(_twin: &str, input: &Value) -> Value {
 
 pub fn sweep(_twin: &str, seed: u64) -> Value {
     let rounds = std::env::var("VERIF_C10_ROUNDS").ok().and_then(|s| s.parse().ok()).unwrap_or(ROUNDS);
-    let skip_known = std::env::var("VERIF_C10_ALL").is_err();
-    let t = run(seed, rounds, false, skip_known);
-    json!({"cases": t.cases, "rewritten": t.changed, "disagreements": t.bad, "known_class_hits": t.known, "first": t.first,
-        "first_known": t.first_known, "nonbool_note": t.first_nonbool})
+    let t = run(seed, rounds, false);
+    json!({"cases": t.cases, "rewritten": t.changed, "disagreements": t.bad, "first": t.first, "nonbool_note": t.first_nonbool})
 }
